@@ -20,10 +20,12 @@ All byte strings hex (`-` = empty).
 * `enc <S> <pkt type> <payload> <padLen>` → `ok <frame>` | `fail <class>`
 * `dec <S> <chunk>` → `ok <n> <pkt>…` | `fail <class> <n> <pkt>…` with `<pkt>` =
   `<type>:<payload>:<padLen>:<z|n>` (`z` = padding all zero)
-* `keys <S>` → `ok <enc key 72> <dec key 72>`; `drop <S>` → `ok`
-* `forge <S> otherkey <idpriv'> <ownB 0|1> <hour>` (S: `srv.new` session that received nothing yet,
-  created with ANY private key; uses only the public bridge line `B`,`NODEID` of the session plus
-  the impostor's own key) — see `forge` below.
+* `keys <S>` → `ok <enc key 72> <dec key 72>`; `drop <S>` → `ok`; `cli.clone <S> <S2>` → `ok`
+* `forge.ntor <nodeid> <B named in the transcript> <impostor's identity private key> <X'> <tape>` →
+  `ok <Y'> <AUTH> <KEY_SEED> <tape used>`: what a man in the middle without the bridge's private
+  key can compute (own ephemeral key from the tape, DH with its own identity key)
+* `forge.blob <nodeid> <idpub> <Y'> <AUTH> <pad> <hour>` → `ok <Y'‖AUTH‖pad‖M_S‖MAC_S>`: valid mark
+  and MAC from public information only
 
 classes: `invalid` `mac` `ntor` `auth` `replay` (handshake); `tag` `wrapped` `pktlen` `paylen`
 (data); `tape` (tape exhausted); `toobig` `framelen` (encoder); `dead`, `state` (op not valid now).
@@ -173,6 +175,24 @@ def step (st : St) : List String → St × String
         | none, some .nonceWrapped => (st.put s { se with link := some l' }, "fail wrapped " ++ body)
         | none, none => (st.put s { se with link := some l' }, "ok " ++ body)
     | _, _ => (st, "bad-op")
+  | ["cli.clone", s, s2] =>
+    match st.get s with
+    | some se => (st.put s2 se, "ok")
+    | none => (st, "bad-op")
+  | ["forge.ntor", nodeid, btr, bpriv, xrepr, tape] =>
+    match unhexN? Consts.Ntor.nodeIDLength nodeid, unhexN? Consts.Ntor.publicKeyLength btr,
+          unhexN? Consts.Ntor.privateKeyLength bpriv, unhexN? Consts.Ntor.representativeLength xrepr, unhex? tape with
+    | some nid, some bt, some bp, some xr, some t =>
+      match forgeNtor nid bt bp xr t with
+      | none => (st, "fail tape")
+      | some f => (st, "ok " ++ hex f.yRepr ++ " " ++ hex f.auth ++ " " ++ hex f.keySeed ++ " " ++
+          toString (t.length - f.rest.length))
+    | _, _, _, _, _ => (st, "bad-op")
+  | ["forge.blob", nodeid, idpub, yrepr, auth, pad, hour] =>
+    match unhexN? Consts.Ntor.nodeIDLength nodeid, unhexN? Consts.Ntor.publicKeyLength idpub,
+          unhexN? Consts.Ntor.representativeLength yrepr, unhexN? Consts.Ntor.authLength auth, unhex? pad, hour.toInt? with
+    | some nid, some pk, some yr, some au, some pd, some h => (st, "ok " ++ hex (forgeBlob nid pk yr au pd h))
+    | _, _, _, _, _, _ => (st, "bad-op")
   | ["keys", s] =>
     match st.get s with
     | some { link := some l, .. } => (st, "ok " ++ hex l.keys.enc ++ " " ++ hex l.keys.dec)
